@@ -42,6 +42,13 @@ def holds(post, asg):
         s = sum(c * lit_val((v, sg), asg) for c, v, sg in post[1])
         op, b = post[2], post[3]
         return s >= b if op == ">=" else s <= b if op == "<=" else s > b if op == ">" else s < b if op == "<" else s == b
+    if k == "pb-shared":
+        # two inequalities over a shared sub-expression: (base + extra) op1 b1   and   base op2 b2
+        base = sum(c * lit_val((v, sg), asg) for c, v, sg in post[1])
+        extra = sum(c * lit_val((v, sg), asg) for c, v, sg in post[2])
+        def cmp(x, op, b):
+            return x >= b if op == ">=" else x <= b if op == "<=" else x > b if op == ">" else x < b if op == "<" else x == b
+        return cmp(base + extra, post[3], post[4]) and cmp(base, post[5], post[6])
     raise ValueError(k)
 
 
@@ -70,6 +77,29 @@ def post_to(sm, post):
         sm.heuleencoding([mk_lit(sm, l) for l in post[1]], post[2])
     elif k == "pb":
         sm.pseudoboolencoding(mk_ineq(sm, post), bool(post[4]))
+    elif k == "pb-shared":
+        # the way rect.py works: one expression object is reused in several inequalities; the second inequality is
+        # BUILT before the first one is derived and POSTED after it
+        base = pb.Expr()
+        for c, v, sg in post[1]:
+            base = base + c * mk_lit(sm, (v, sg))
+        def mk(e, op, b):
+            return (e >= b) if op == ">=" else (e <= b) if op == "<=" else (e > b) if op == ">" else (e < b) if op == "<" else (e == b)
+        second = mk(base, post[5], post[6]) if post[8] else None
+        e1 = base
+        for c, v, sg in post[2]:
+            e1 = e1 + c * mk_lit(sm, (v, sg))
+        if post[9]:
+            e1 = e1 * 1 + 0
+        first = mk(e1, post[3], post[4])
+        err = None
+        for ineq in (first, second if second is not None else mk(base, post[5], post[6])):
+            try:
+                sm.pseudoboolencoding(ineq, bool(post[7]))
+            except Exception as e:  # refusing one of the two is a refusal of the pair
+                err = e
+        if err is not None:
+            raise err
     else:
         raise ValueError(k)
 
@@ -120,6 +150,8 @@ def run_script(c):
         try:
             post_to(sm, p)
             accepted.append(p)
+            if p[0] == "pb-shared":
+                cls.append("shared-subexpression")
             if p[0] == "pb":
                 ineq = mk_ineq(S.SATManager(), p)
                 cls.append("pb-clause-shortcut" if ineq.isclause() else ("pb-robdd-decomp" if p[4] else "pb-robdd"))
@@ -231,8 +263,22 @@ def script_s(draw):
             bound = draw(_i(total_neg + 1, total_pos - 1))
         return ["pb", terms, op, bound, draw(st.booleans())]
 
+    def shared():
+        n = nvars
+        base = [[draw(_i(1, 4)), draw(_i(0, n - 1)), draw(st.booleans())] for _ in range(draw(_i(1, 4)))]
+        extra = [[draw(_i(-3, 4)), draw(_i(0, n - 1)), draw(st.booleans())] for _ in range(draw(_i(1, 3)))]
+        if draw(st.booleans()):  # an extra term on a variable of the base: the merge happens inside a shared term
+            extra[0][1] = base[0][1]
+        tb = sum(t[0] for t in base)
+        te = sum(t[0] for t in extra if t[0] > 0)
+        ops = [">=", ">=", "<=", ">=", "<="]
+        return ["pb-shared", base, extra, draw(st.sampled_from(ops)), draw(_i(0, tb + te)), draw(st.sampled_from(ops)), draw(_i(0, tb)),
+                draw(st.booleans()), draw(st.booleans()), draw(st.booleans())]
+
     def post():
-        k = draw(_i(0, 9))
+        k = draw(_i(0, 10))
+        if k == 10:
+            return shared()
         if k == 0:
             return ["clause", [lit() for _ in range(draw(_i(0, 4)))]]
         if k == 1:
@@ -267,5 +313,5 @@ def script_s(draw):
 def subchecks():
     return [
         Sub("scripts", run_script, strategy=script_s(), n_quick=12000, n_thorough=300000,
-            required=("pb-robdd", "pb-robdd-decomp", "pb-clause-shortcut", "heule-depth2", "refused", "history", "sat", "unsat")),
+            required=("pb-robdd", "pb-robdd-decomp", "pb-clause-shortcut", "heule-depth2", "refused", "history", "sat", "unsat", "shared-subexpression")),
     ]
